@@ -92,13 +92,15 @@ enum KOp {
     Collect,
     IntoIter,
     Fmt,
+    GetOrInsert(usize, i64),
+    IterMutBump,
 }
 
 fn gen_kop(t: &mut Tape, counter: &mut i64) -> KOp {
     let k = t.below(4);
     *counter += 1;
     let p = *counter;
-    match t.below(22) {
+    match t.below(24) {
         0 | 1 => KOp::Insert(k, p),
         2 => KOp::InsertFormatted(k, p),
         3 | 4 => KOp::Remove(k),
@@ -132,13 +134,15 @@ fn gen_kop(t: &mut Tape, counter: &mut i64) -> KOp {
             let n = 1 + t.below(3);
             KOp::Extend((0..n).map(|i| (t.below(4), p * 10 + i as i64)).collect())
         }
-        _ => {
+        21 => {
             if t.chance(1, 2) {
                 KOp::Collect
             } else {
                 KOp::IntoIter
             }
         }
+        22 => KOp::GetOrInsert(k, p),
+        _ => KOp::IterMutBump,
     }
 }
 
@@ -225,6 +229,17 @@ fn apply_impl(holder: &mut Item, target: Target, op: &KOp) -> Option<Ret> {
                     String::new()
                 }
                 KOp::IntoIter => format!("{:?}", t.clone().into_iter().map(|(k, i)| (k.to_string(), item_payload(&i))).collect::<Vec<_>>()),
+                KOp::IterMutBump => {
+                    let mut seen = vec![];
+                    for (k, i) in t.iter_mut() {
+                        if let Some(p) = item_payload(i) {
+                            seen.push((k.get().to_string(), p));
+                            *i = mk_item(p + 1_000_000);
+                        }
+                    }
+                    format!("{seen:?}")
+                }
+                KOp::GetOrInsert(..) => return None,
                 KOp::Vivify(_) => return None,
             })
         }
@@ -301,6 +316,17 @@ fn apply_impl(holder: &mut Item, target: Target, op: &KOp) -> Option<Ret> {
                     String::new()
                 }
                 KOp::IntoIter => format!("{:?}", t.clone().into_iter().map(|(k, v)| (k.to_string(), v.as_integer())).collect::<Vec<_>>()),
+                KOp::IterMutBump => {
+                    let mut seen = vec![];
+                    for (k, v) in t.iter_mut() {
+                        if let Some(p) = v.as_integer() {
+                            seen.push((k.get().to_string(), p));
+                            *v = Value::from(p + 1_000_000);
+                        }
+                    }
+                    format!("{seen:?}")
+                }
+                KOp::GetOrInsert(k, p) => r(t.get_or_insert(KEYS[*k], *p).as_integer()),
                 KOp::Vivify(_) => return None,
             })
         }
@@ -476,6 +502,23 @@ fn apply_model(m: &mut KM, target: Target, op: &KOp) -> (Option<Ret>, bool) {
             String::new()
         }
         KOp::IntoIter => format!("{:?}", m.visible().into_iter().map(|(k, p)| (k, Some(p))).collect::<Vec<_>>()),
+        KOp::IterMutBump => {
+            let seen = m.visible();
+            for (_, s) in m.0.iter_mut() {
+                if let Slot::V(v) = s {
+                    *v += 1_000_000;
+                }
+            }
+            format!("{seen:?}")
+        }
+        KOp::GetOrInsert(k, p) => match m.get(KEYS[*k]) {
+            Some(v) => r(Some(v)),
+            None => {
+                // (on a placeholder slot: a lookup-or-insert sees no value there, so it inserts)
+                m.insert(KEYS[*k], *p);
+                r(Some(*p))
+            }
+        },
         KOp::Vivify(k) => {
             if m.pos(KEYS[*k]).is_none() {
                 m.0.push((KEYS[*k].to_string(), Slot::Ph));
